@@ -793,6 +793,8 @@ fn parse_option<P, T>(
 where
     P: Parser<T>,
 {
+    #[cfg(bpaf_verif)]
+    crate::verif::tick();
     let mut orig_args = args.clone();
     match parser.eval(args) {
         // we keep including values for as long as we consume values from the argument
@@ -1183,6 +1185,8 @@ where
             }
 
             loop {
+                #[cfg(bpaf_verif)]
+                crate::verif::tick();
                 match self.inner.eval(&mut this_arg) {
                     Ok(res) => {
                         // there's a smaller adjacent scope, we must try it before returning.
